@@ -172,13 +172,14 @@ pub(crate) fn process_notification(manager: &mut RequestManager, notif: Notifica
 /// Process a response from the server.
 ///
 /// Returns `Ok(None)` if the response was successfully sent.
-/// Returns `Ok(Some(_))` if the response got an error but could be handled.
+/// Returns `Ok(Some(sub_id))` if the response accepted a subscription that nobody waits for anymore,
+/// the subscription must be closed.
 /// Returns `Err(_)` if the response couldn't be handled.
 pub(crate) fn process_single_response(
 	manager: &mut RequestManager,
 	response: RawResponseOwned,
 	max_capacity_per_subscription: usize,
-) -> Result<Option<RequestMessage>, InvalidRequestId> {
+) -> Result<Option<SubscriptionId<'static>>, InvalidRequestId> {
 	let response_id = response.id().clone().into_owned();
 
 	match manager.request_status(&response_id) {
@@ -225,7 +226,10 @@ pub(crate) fn process_single_response(
 			{
 				match send_back_oneshot.send(Ok((subscribe_rx, sub_id.clone()))) {
 					Ok(_) => Ok(None),
-					Err(_) => Ok(build_unsubscribe_message(manager, response_id, sub_id)),
+					// The subscribe call was abandoned, close the subscription like a dropped one. The unsubscribe
+					// message can't be built here because its request ID is reserved and the send task would deny it
+					// as a duplicate.
+					Err(_) => Ok(Some(sub_id)),
 				}
 			} else {
 				let _ = manager.complete_pending_call(unsub_id);
